@@ -29,7 +29,10 @@ Ways  == {"none", "read", "copy", "write", "forward"}
 \* without length).  Two more ways: the callee hands its parameter on to `extern fn gx(r: &[]i32)`, which
 \* writes, either bare (`gx(q)`: xfwd) or with an address marker (`gx(&q)`: xfwdamp).
 ExternKinds == {"xaview", "xsptr"}
-AllKinds == Kinds \cup ExternKinds
+\* Dimension audit: the argument is the address of a PLACE inside a caller variable -- `&arr[1usize]` (ptr_elem) or
+\* `&s.m` (ptr_mem) for a parameter `&i32`; the cell the callee can reach is then a1 resp. sm.
+PlaceKinds == {"ptr_elem", "ptr_mem"}
+AllKinds == Kinds \cup ExternKinds \cup PlaceKinds
 ExternWays == {"xfwd", "xfwdamp"}
 XPtr == Ptr(EndlessOf(I32t))
 
@@ -37,17 +40,18 @@ SS_ == <<"struct", "S">>
 WW_ == <<"word", "W">>
 \* declared type of the parameter / of the caller variable handed over / the cell it stands for
 ParamShape(kd) == CASE kd = "value" -> I32t [] kd = "word" -> WW_ [] kd = "aview" -> Slice(I32t)
-                    [] kd = "sview" -> SS_ [] kd = "sptr" -> SPtr(I32t) [] kd = "ptr" -> Ptr(I32t)
+                    [] kd = "sview" -> SS_ [] kd = "sptr" -> SPtr(I32t) [] kd \in {"ptr", "ptr_elem", "ptr_mem"} -> Ptr(I32t)
                     [] kd = "pptr" -> Ptr(Ptr(I32t))
                     [] kd = "xaview" -> View(EndlessOf(I32t)) [] kd = "xsptr" -> XPtr
-ArgDecl(kd) == CASE kd \in {"value", "ptr"} -> I32t [] kd = "word" -> WW_
+ArgDecl(kd) == CASE kd \in {"value", "ptr", "ptr_elem", "ptr_mem"} -> I32t [] kd = "word" -> WW_
                  [] kd \in {"aview", "sptr", "xaview", "xsptr"} -> Arr("2", I32t)
                  [] kd = "sview" -> SS_ [] kd = "pptr" -> Ptr(I32t)
 TargetCell(kd) == CASE kd \in {"value", "ptr", "pptr"} -> "x" [] kd = "word" -> "wm"
+                [] kd = "ptr_elem" -> "a1" [] kd = "ptr_mem" -> "sm"
                 [] kd \in {"aview", "sptr", "xaview", "xsptr"} -> "a0"
                 [] kd = "sview" -> "sm"
 \* the path f uses to reach the i32 it reads / writes through parameter q
-QPath(kd) == CASE kd \in {"value", "ptr", "pptr"} -> <<>> [] kd \in {"word", "sview"} -> <<"m">>
+QPath(kd) == CASE kd \in {"value", "ptr", "pptr", "ptr_elem", "ptr_mem"} -> <<>> [] kd \in {"word", "sview"} -> <<"m">>
                [] kd \in {"aview", "sptr", "xaview", "xsptr"} -> <<"i">>
 
 \* --- verdicts -------------------------------------------------------------
@@ -76,7 +80,7 @@ Codes(prog) == UNION {ArgVerdict(prog[i].kd, prog[i].amp).codes \cup WayVerdict(
 Before == [x |-> 1, a0 |-> 2, a1 |-> 3, sm |-> 4, wm |-> 5]
 Written(i) == 10 + i                       \* the value parameter i writes
 \* a parameter reaches the caller's cell only through an address the caller wrote
-Reaches(p) == p.amp >= 1 /\ p.kd \in {"sptr", "ptr", "pptr", "xsptr"}
+Reaches(p) == p.amp >= 1 /\ p.kd \in {"sptr", "ptr", "pptr", "xsptr", "ptr_elem", "ptr_mem"}
 Writes(p)  == p.way \in {"write", "forward", "forward2", "xfwd", "xfwdamp"}
 RECURSIVE Run(_, _, _)
 Run(prog, i, cells) == IF i > Len(prog) THEN cells
